@@ -133,7 +133,26 @@ func LastNow() int64                { return 0 }
 func NowCount() int                 { return 0 }
 func TickBudget(n int)              {}
 func OpaqueLen(n int)               {}
-func Goroutines() int               { return 0 }
+// Goroutines natively: goroutines that have a frame of the library (and none of the test or the
+// harness) on their stack, after a settling time of up to 2 s.
+func Goroutines() int {
+	n := 0
+	for i := 0; i < 100; i++ {
+		buf := make([]byte, 1<<20)
+		buf = buf[:runtime.Stack(buf, true)]
+		n = 0
+		for _, g := range strings.Split(string(buf), "\n\n") {
+			if strings.Contains(g, "simplefix-go") && !strings.Contains(g, "testing.tRunner") && !strings.Contains(g, "zzverif.") && !strings.Contains(g, ".H_") {
+				n++
+			}
+		}
+		if n == 0 {
+			return 0
+		}
+		time.Sleep(20 * time.Millisecond)
+	}
+	return n
+}
 func Spawned() int                  { return runtime.NumGoroutine() }
 func AfterFuncs() int               { return 0 }
 func AfterFuncDelay(i int) int64    { return 0 }
